@@ -184,6 +184,64 @@ theorem teardown_ends (cfg : Config) (ss : Session) (c : Nat) (r : Request) (hm 
   simp only [Bool.false_eq_true, if_false]
   split <;> simp_all
 
+/-! ## Session headers that name no session -/
+
+/-- A request whose Session header names no live session is refused — 454 on a connection that owns
+no session, 400 on one that does — for every method that is handled in a session, except SETUP and
+ANNOUNCE on a connection without session (next theorem).  DESCRIBE never looks at the header. -/
+theorem unknown_session_id_refused (cfg : Config) (srv : Server) (cn : Conn) (r : Request)
+    (hsid : lookupSid srv r.sid = none) (hn : r.sid ≠ .none)
+    (hm : r.method ≠ .describe) (hcs : r.cseq.isSome = true) (hstar : r.star = false)
+    (hcreate : cn.sess = none → r.method ≠ .setup ∧ r.method ≠ .announce)
+    (hlinked : ∀ cur, cn.sess = some cur → r.sid ≠ .id cur) :
+    400 ≤ (connInner cfg srv cn r).2.status := by
+  have h454 : ∀ b, cn.sess = none → b = false → 400 ≤ (inSession cfg srv cn r b).2.status := by
+    intro b hs hb
+    unfold inSession
+    simp [hs, hsid, hb, errResp, Facts.Sess.statusSessionNotFound]
+  have h400 : ∀ b cur, cn.sess = some cur → 400 ≤ (inSession cfg srv cn r b).2.status := by
+    intro b cur hs
+    unfold inSession
+    simp [hs, hn, hlinked cur hs, errResp]
+  have hany : ∀ b, (cn.sess = none → b = false) → 400 ≤ (inSession cfg srv cn r b).2.status := by
+    intro b hb
+    cases hs : cn.sess with
+    | none => exact h454 b hs (hb hs)
+    | some cur => exact h400 b cur hs
+  have hc : r.cseq.isNone = false := by cases h : r.cseq <;> simp_all
+  unfold connInner
+  simp only [hc, hstar, Bool.false_eq_true, if_false, Bool.and_false]
+  cases hmm : r.method <;> simp only [hmm] at hm hcreate ⊢
+  · simp [hn]; exact hany false fun _ => rfl
+  · exact absurd rfl hm
+  · split
+    · exact hany true fun hs => absurd rfl (hcreate hs).2
+    · simp [notImplemented, Facts.Sess.statusNotImplemented]
+  · split
+    · exact hany true fun hs => absurd rfl (hcreate hs).1
+    · simp [notImplemented, Facts.Sess.statusNotImplemented]
+  · split
+    · exact hany false fun _ => rfl
+    · simp [notImplemented, Facts.Sess.statusNotImplemented]
+  · split
+    · exact hany false fun _ => rfl
+    · simp [notImplemented, Facts.Sess.statusNotImplemented]
+  · split
+    · exact hany false fun _ => rfl
+    · simp [notImplemented, Facts.Sess.statusNotImplemented]
+  · simp [hn]; exact hany false fun _ => rfl
+  · simp [hn]; exact hany false fun _ => rfl
+  · simp [hn]; exact hany false fun _ => rfl
+
+/-- The exception (known finding `sess-wrong-session-accepted:new-session`): SETUP with an unknown
+Session identifier on a connection that owns no session opens a new session and is answered 200 with
+the new identifier. -/
+theorem unknown_session_id_creates_session :
+    let srv := (run {} {} [.open 0 0]).1
+    let out := stepEv {} srv (.req 0 { method := .setup, sid := .wrong, trs := some [{ proto := .udp }] })
+    (out.2.map fun r => (r.status, r.sessHdr)) = some (200, some 0) ∧ sessIds out.1 = [0] := by
+  decide
+
 /-! ## a session ends exactly once -/
 
 /-- **session_ends_once** (bookkeeping half): in every history from the empty server, every session
